@@ -154,6 +154,11 @@ def from_model(mod, rng, texts=None, flagged=False, only_plain=False):
                             perm = names[:j] + [names[j] + '_alt'] + names[j + 1:]
                         if perm != names:
                             methods.append((m['callee'], perm, [False] * len(perm)))
+                    if names and rng.random() < 0.3:
+                        # a decoy listed first whose parameter list *contains* the real one: the last real parameter and
+                        # one more are optional there, so required < n < total and it documents neither this member nor
+                        # a call of it (h1_C17_1: counting "between required and total" instead of "required or total")
+                        methods.append((m['callee'], names + ['zz_opt'], [False] * (len(names) - 1) + [True, True]))
                     methods.append((m['callee'], [a[1] for a in m['args']], [a[2] is not None for a in m['args']]))
                     if rng.random() < 0.2:        # a decoy overload with different parameter names
                         methods.append((m['callee'], [a[1] + '_other' for a in m['args']] + ['extra'],
